@@ -72,5 +72,16 @@ let handle (cmd : string) (args : t list) : t option =
   match cmd, args with
   | "merge", [c; lt; l; r] ->
     Some (m_outcome doc_out (merge_root (lit_of lt) (cfg_of c) (node_of_sexp l) (node_of_sexp r)))
+  | "multidoc", [A mode; c; lt; L ls; L rs] ->
+    let m = (match mode with "condense" -> MCondense | "across" -> MAcross | "matrix" -> MMatrix
+                            | _ -> failwith "bad multidoc mode") in
+    (match multidoc_run (lit_of lt) (cfg_of c) m (List.map node_of_sexp ls) (List.map node_of_sexp rs) with
+     | Ok (docs, st) ->
+       let st = int_of_nat st in
+       if st = 0 then Some (L [A "ok"; L (List.map doc_out docs)])
+       else if m = MCondense then Some (L [A "failed"; A "condense"])
+       else Some (L [A "failed"; A ("i" ^ string_of_int st)])
+     | Raise e -> Some (L [A "raise"; m_exn_sexp e])
+     | OutOfFuel -> Some (L [A "outoffuel"]))
   | "node-eq", [a; b] -> Some (bs (node_eq (node_of_sexp a) (node_of_sexp b)))
   | _ -> None
